@@ -899,17 +899,28 @@ def r_default_is_new(ctx, db, est, new_args=None):
 # ---------------------------------------------------------------------------------------------
 # histogram helpers
 
+_HIST_ORDER_CACHE = {}
+
+
 def hist_sym(m, est, name, consts=None, sorted_edges=True, strict=False):
     """abstract histogram: edges are non-NaN atoms in non-decreasing order (the from_ranges
     invariant), bins are bounded counters"""
     cell = Cell(m.sym_value(est.ty(), name, None, None, 0), root=name)
     lm = leaf_map(cell.v)
     edges = [v for k, v in sorted(lm.items(), key=lambda kv: leaf_index(kv[0])) if is_float(v)]
+    key = (tuple(edges), sorted_edges, strict)
+    if not m.order.nodes and key in _HIST_ORDER_CACHE:
+        # the transitive closure over a long sorted chain is expensive: computed once per run
+        m.order = _HIST_ORDER_CACHE[key].clone()
+        return cell, edges
+    pristine = not m.order.nodes
     for e in edges:
         m.order.set_nan(e, False)
     if sorted_edges:
         for a, b in zip(edges, edges[1:]):
             m.order.assume("Lt" if strict else "Le", a, b, True)
+    if pristine:
+        _HIST_ORDER_CACHE[key] = m.order.clone()
     return cell, edges
 
 
